@@ -1202,7 +1202,74 @@ func (c *c10ctx) ruleR3() {
 			}
 		}
 	}
-	// both the abort channel and a chan *dataBlock field must be among the re-made ones
+	// a channel of the source that is closed in the course of a run (the abort channel, the
+	// next-block channel) must be among the re-made ones: with the make deleted outright there is
+	// no store left to judge above
+	remade := map[string]bool{}
+	for _, in := range c.starterInvokes() {
+		for _, impl := range c.impls(in) {
+			Instrs(impl, func(x ssa.Instruction) {
+				if st, ok := x.(*ssa.Store); ok {
+					if _, isMk := st.Val.(*ssa.MakeChan); isMk {
+						if fa, ok := st.Addr.(*ssa.FieldAddr); ok && ownerName(fa.X.Type()) == c.anyT.Obj().Name() {
+							remade[derefStruct(fa.X.Type()).Field(fa.Field).Name()] = true
+						}
+					}
+				}
+			})
+		}
+	}
+	closed := map[string]ssa.Instruction{}
+	isAnyChanField := func(v ssa.Value) (string, bool) {
+		o, f, _, ok := FieldOf(v)
+		if !ok || !ownerIs(o, c.anyT.Obj().Name()) {
+			return "", false
+		}
+		_, isCh := v.Type().Underlying().(*types.Chan)
+		return f, isCh
+	}
+	for _, fn := range p.LibFuncs() {
+		Instrs(fn, func(x ssa.Instruction) {
+			cc := CallOf(x)
+			if cc == nil {
+				return
+			}
+			if b, ok := cc.Value.(*ssa.Builtin); ok && b.Name() == "close" {
+				if f, ok := isAnyChanField(cc.Args[0]); ok {
+					closed[f] = x
+				}
+				return
+			}
+			// a helper that closes its channel parameter (close-once)
+			if callee := cc.StaticCallee(); callee != nil && isModuleFn(callee) {
+				for i, a := range cc.Args {
+					f, ok := isAnyChanField(a)
+					if !ok || i >= len(callee.Params) {
+						continue
+					}
+					Instrs(callee, func(y ssa.Instruction) {
+						if c2 := CallOf(y); c2 != nil {
+							if b, isB := c2.Value.(*ssa.Builtin); isB && b.Name() == "close" && c2.Args[0] == ssa.Value(callee.Params[i]) {
+								closed[f] = x
+							}
+						}
+					})
+				}
+			}
+		})
+	}
+	var cf []string
+	for f := range closed {
+		cf = append(cf, f)
+	}
+	sort.Strings(cf)
+	for _, f := range cf {
+		if !remade[f] {
+			r.Bad("C10.R3d", "channel "+f+" is re-made by the per-start preparation", p.InstrPos(closed[f]), "the source's channel "+f+" is closed in the course of a run (here) but no step of the start sequence makes a new one: the second start works with a closed channel (a closed abort channel ends the new run at once, a closed block channel panics its producer)")
+		} else {
+			r.OK("C10.R3d", "channel "+f+" is re-made by the per-start preparation", p.InstrPos(closed[f]), "closed during a run, made anew in a start step")
+		}
+	}
 }
 
 // starterInvokes lists the interface calls made by the start function, in order.
